@@ -51,16 +51,61 @@ def _chase(x):       # x0 = x1 + 1 ; x1 = x0 + 1, in place: never at rest
 
 INPLACE = [_inplace(BYNAME_, n + '!') for BYNAME_, n in ((pin1, 'pin1'), (le2, 'le2'), (ge3, 'ge3'), (swap, 'swap'),
                                                          (shift, 'shift'), (tie, 'tie'), (step, 'step'))] + [_mk(_chase, 'chase!', False)]
-BYNAME = {m.__name__: m for m in MEMBERS + EXTRA + INPLACE}
+
+
+# members that have NO image at some vectors: there they raise one of the errors the combinators document and handle
+# (ZeroDivisionError; the "... not supported ... 'complex'" TypeError / ValueError).  Everywhere else they are ordinary maps.
+def unit_sum(x): s = sum(x); return [i / s for i in x]                         # undefined where sum(x) == 0
+def scale_first(x): return [2 * i / x[0] for i in x]                            # rescale to x0 == 2; undefined where x0 == 0
+def recip(x): x = list(x); x[0] = 1.0 / x[0]; return x                          # period 2; undefined where x0 == 0
+def sqrt_floor(x): x = list(x); x[0] = max(x[0] ** 0.5, 1.0); return x          # x0 < 0: complex ** result, '>' raises TypeError
+def vcomplex(x):                                                                # x0 < 0: the ValueError flavour of the same
+    x = list(x)
+    if x[0] < 0:
+        raise ValueError("operation not supported for 'complex' argument")
+    x[0] = min(x[0], 1.0)
+    return x
+
+
+ERRMEMBERS = [_mk(unit_sum, 'unit_sum', True), _mk(scale_first, 'scale_first', True), _mk(recip, 'recip', False),
+              _mk(sqrt_floor, 'sqrt_floor', False), _mk(vcomplex, 'vcomplex', True)]
+ERRNAMES = frozenset(m.__name__ for m in ERRMEMBERS)
+HANDLED = (ZeroDivisionError, TypeError, ValueError)       # what the members above raise, nothing else
+ERR_GRID = [-1.0, 0.0, 1.0, 2.0]
+ERR_INPUTS = [[a, b] for a in ERR_GRID for b in ERR_GRID]
+BYNAME = {m.__name__: m for m in MEMBERS + EXTRA + INPLACE + ERRMEMBERS}
+
+
+def _image(m, y):
+    """m(y) as a list, or None where m has no image (raises a handled error)"""
+    try:
+        r = m(list(y))
+    except HANDLED:
+        return None
+    return r.tolist() if hasattr(r, 'tolist') else list(r)
 GRID = [0.0, 1.0, 2.5, 3.0]
 INPUTS = [[a, b] for a in GRID for b in GRID]
 UNIT = (0.0, 0.25, 0.5, 0.75, env.ONE_MINUS)
 
 
-def _one(kind, names, x0, maxiter, chooser, as_array=False):
-    """run one execution; return (path, y, fired_count, nrandom)"""
+def _one(kind, names, x0, maxiter, chooser, as_array=False, calls=None):
+    """run one execution; return (path, y, nrandom).  With a member of ERRNAMES in the tuple a handled error that
+    escapes the combinator is an outcome (path 'raised:<type>', neither onexit nor onfail fired), not a harness fault;
+    `calls` (a list) receives 'D'/'U' per member call: the member was defined / raised at the vector it was given."""
     import mystic.constraints as mc
     members = [BYNAME[n] for n in names]
+    witherr = any(n in ERRNAMES for n in names)
+    if calls is not None:
+        def _spy(m):
+            def w(x):
+                try:
+                    r = m(x)
+                except HANDLED:
+                    calls.append('U'); raise
+                calls.append('D')
+                return r
+            return w
+        members = [_spy(m) for m in members]
     fired = []
     def onexit(x):
         fired.append('exit'); return x
@@ -90,7 +135,16 @@ def _one(kind, names, x0, maxiter, chooser, as_array=False):
         if as_array:
             import numpy
             xin = numpy.array(xin)
-        y = c(xin)
+        if calls is not None:
+            del calls[:]
+        if witherr:
+            try:
+                y = c(xin)
+            except HANDLED as exc:
+                fired.append('raised:' + type(exc).__name__)
+                y = []
+        else:
+            y = c(xin)
     y = y.tolist() if hasattr(y, 'tolist') else list(y)
     return fired, y, len(rng.log)
 
@@ -98,19 +152,35 @@ def _one(kind, names, x0, maxiter, chooser, as_array=False):
 def _judge(kind, names, y, fired):
     """None if fine, else text"""
     members = [BYNAME[n] for n in names]
-    if len(fired) != 1:
+    if len(fired) != 1 or fired[0] not in ('exit', 'fail'):
         return 'onexit/onfail fired %r (exactly one of them must fire exactly once)' % (fired,)
     if fired[0] == 'fail':
         return None
-    unchanged = [m(list(y)) == y for m in members]
-    if kind == 'and' and not all(unchanged):
-        bad = [n for n, u in zip(names, unchanged) if not u]
+    images = [_image(m, y) for m in members]           # None: the member raises a handled error at y (no image)
+    unchanged = [im is not None and im == y for im in images]
+    changed = [im is not None and im != y for im in images]
+    undefined = [n for n, im in zip(names, images) if im is None]
+    if kind == 'and' and any(changed):
+        bad = [n for n, u in zip(names, changed) if u]
         return 'and_ reported success at %r but member(s) %s change it' % (y, bad)
+    if kind == 'and' and undefined:
+        return 'and_ reported success at %r where member(s) %s raise (no image: not "left unchanged")' % (y, undefined)
     if kind == 'or' and not any(unchanged):
-        return 'or_ reported success at %r but every member changes it' % (y,)
+        return 'or_ reported success at %r but no member leaves it unchanged (members that raise there: %s)' % (y, undefined)
     if kind == 'not' and unchanged[0]:
         return 'not_ reported success at %r but the member leaves it unchanged' % (y,)
+    if kind == 'not' and undefined:
+        return 'not_ reported success at %r where the member raises (no image: the vector is not "changed by c")' % (y,)
     return None
+
+
+def _sigextra(names, y, fired):
+    """categorical: does some member raise at the returned vector / did a member's error escape"""
+    if fired and fired[0].startswith('raised'):
+        return 'error_escaped'
+    if fired == ['exit'] and any(_image(BYNAME[n], y) is None for n in names):
+        return 'member_undefined_at_result'
+    return 'none'
 
 
 REUSE_INPUTS = [[a, b] for a in (0.0, 2.5, 4.5) for b in (0.0, 1.0)]
@@ -121,14 +191,18 @@ def shard(item):
     inputs = INPUTS
     if len(item) > 5 and item[5] == 'reuse':
         inputs = [{'first': a, 'then': b} for a in REUSE_INPUTS for b in REUSE_INPUTS]
+    err = len(item) > 5 and item[5] == 'err'
+    if err:
+        inputs = ERR_INPUTS
     T = Tally()
     for names in tuples:
         for x0 in inputs:
             for maxiter in maxiters:
-                for arr in ((False, True) if kind != 'not' else (False,)):
+                for arr in ((False, True) if kind != 'not' and not err else (False,)):
                     outcomes = set()
-                    def run(ch, names=names, x0=x0, maxiter=maxiter, arr=arr):
-                        return _one(kind, names, x0, maxiter, ch, arr)
+                    calls = [] if err else None
+                    def run(ch, names=names, x0=x0, maxiter=maxiter, arr=arr, calls=calls):
+                        return _one(kind, names, x0, maxiter, ch, arr, calls)
                     for ch, (fired, y, ndraw) in tree.explore(run, bound=bound, free=free):
                         T.count('traces')
                         T.count('transitions', len(ch.trace) + 1)
@@ -136,12 +210,29 @@ def shard(item):
                         T.hist('path_%s' % kind, ','.join(fired))
                         if ndraw:
                             T.count('executions_with_randomisation')
+                        if err:
+                            # non-vacuity of the raising-member space: where in the run did a member raise
+                            seq = ''.join(calls)
+                            nU = seq.count('U')
+                            T.hist('err_%s_path_x_member_raised' % kind,
+                                   '%s|%s' % (','.join(fired), 'never' if not nU else
+                                              ('only_at_input' if seq.startswith('U') and nU == 1 else
+                                               ('input_and_later' if seq.startswith('U') else 'only_after_input'))))
+                            if kind == 'not':
+                                T.hist('err_not_member_calls(D=defined,U=raised)', seq)
+                                if nU and ndraw and 'U' in seq[1:]:
+                                    T.count('not_retry_landed_on_undefined_vector')
+                            if fired == ['exit']:
+                                und = [n for n in names if _image(BYNAME[n], y) is None]
+                                T.hist('err_%s_success_members_undefined_at_result' % kind, len(und))
                         msg = _judge(kind, names, y, fired)
                         if msg:
                             nonidem = [n for n in names if not BYNAME[n].idem]
                             T.violate({'clause': kind + '_success', 'members': list(names),
                                        'randomised': bool(ndraw), 'reused_object': isinstance(x0, dict),
-                                       'nonidempotent_member': bool(nonidem)},
+                                       'nonidempotent_member': bool(nonidem)} if not err else
+                                      {'clause': kind + '_success', 'raising_member': True, 'what': _sigextra(names, y, fired),
+                                       'members': list(names), 'randomised': bool(ndraw), 'cap': 'maxiter=1' if maxiter == 1 else 'maxiter>1'},
                                       {'kind': kind, 'names': list(names), 'x0': x0,
                                        'maxiter': maxiter, 'array': arr, 'choices': ch.choices},
                                       msg + ' [members=%s x0=%r maxiter=%d choices=%r]'
